@@ -341,3 +341,146 @@ def no_dtype_inheriting_storage(ctx, model, prop, rule, prefixes, what):
                        nontrivial_key=("like", fi.qualname, name))
     ctx.analysed[f"{rule} *_like result arrays examined"] = n
     return n
+
+
+def no_use_before_assignment(ctx, model, prop, rule, prefixes, exact_modules=False):
+    """a local variable read at a point where no statement executed before it (on any path) can have bound it raises
+    UnboundLocalError whenever that point is reached - the function then has no value at all for those inputs.  Conservative: only
+    reads of a name that is a local of the function and is in nobody's "possibly assigned" set at that point are reported."""
+    from .core import Finding
+    n = 0
+
+    class Flow:
+        def __init__(self, fi):
+            self.fi = fi
+            self.locals = set()
+            self.bad = []
+
+        def targets(self, t):
+            if isinstance(t, _ast.Name):
+                yield t.id
+            elif isinstance(t, (_ast.Tuple, _ast.List)):
+                for e in t.elts:
+                    yield from self.targets(e)
+            elif isinstance(t, _ast.Starred):
+                yield from self.targets(t.value)
+
+        def loads(self, node, maybe):
+            if node is None:
+                return
+            stack = [node]
+            while stack:
+                x = stack.pop()
+                if isinstance(x, (_ast.Lambda, _ast.FunctionDef, _ast.AsyncFunctionDef, _ast.ListComp, _ast.SetComp, _ast.DictComp, _ast.GeneratorExp)):
+                    continue        # own scope / evaluated later
+                if isinstance(x, _ast.NamedExpr):
+                    self.loads(x.value, maybe)
+                    maybe.update(self.targets(x.target))
+                    continue
+                if isinstance(x, _ast.Name) and isinstance(x.ctx, _ast.Load) and x.id in self.locals and x.id not in maybe:
+                    self.bad.append(x)
+                stack.extend(_ast.iter_child_nodes(x))
+
+        def block(self, stmts, maybe):
+            for st in stmts:
+                self.stmt(st, maybe)
+
+        def stmt(self, st, maybe):
+            if isinstance(st, (_ast.FunctionDef, _ast.AsyncFunctionDef, _ast.ClassDef)):
+                maybe.add(st.name)
+            elif isinstance(st, _ast.Assign):
+                self.loads(st.value, maybe)
+                for t in st.targets:
+                    if not isinstance(t, _ast.Name):
+                        self.loads(t, maybe)
+                    maybe.update(self.targets(t))
+            elif isinstance(st, _ast.AugAssign):
+                self.loads(st.value, maybe)
+                self.loads(_ast.Name(id=st.target.id, ctx=_ast.Load(), lineno=st.lineno, col_offset=st.col_offset), maybe) if isinstance(st.target, _ast.Name) else self.loads(st.target, maybe)
+                maybe.update(self.targets(st.target))
+            elif isinstance(st, _ast.AnnAssign):
+                self.loads(st.value, maybe)
+                if st.value is not None:
+                    maybe.update(self.targets(st.target))
+            elif isinstance(st, (_ast.For, _ast.AsyncFor)):
+                self.loads(st.iter, maybe)
+                maybe.update(self.targets(st.target))
+                self.block(st.body, maybe)
+                self.block(st.orelse, maybe)
+            elif isinstance(st, _ast.While):
+                self.loads(st.test, maybe)
+                self.block(st.body, maybe)
+                self.block(st.orelse, maybe)
+            elif isinstance(st, _ast.If):
+                self.loads(st.test, maybe)
+                a, b = set(maybe), set(maybe)
+                self.block(st.body, a)
+                self.block(st.orelse, b)
+                maybe.update(a | b)
+            elif isinstance(st, (_ast.With, _ast.AsyncWith)):
+                for it in st.items:
+                    self.loads(it.context_expr, maybe)
+                    if it.optional_vars is not None:
+                        maybe.update(self.targets(it.optional_vars))
+                self.block(st.body, maybe)
+            elif isinstance(st, _ast.Try):
+                self.block(st.body, maybe)
+                for h in st.handlers:
+                    if h.name:
+                        maybe.add(h.name)
+                    self.block(h.body, maybe)
+                self.block(st.orelse, maybe)
+                self.block(st.finalbody, maybe)
+            elif isinstance(st, (_ast.Import, _ast.ImportFrom)):
+                for a_ in st.names:
+                    maybe.add((a_.asname or a_.name).split(".")[0])
+            elif isinstance(st, _ast.Delete):
+                pass
+            elif isinstance(st, (_ast.Global, _ast.Nonlocal)):
+                maybe.update(st.names)
+            else:
+                for ch in _ast.iter_child_nodes(st):
+                    self.loads(ch, maybe)
+
+    for m in model.modules.values():
+        if (m.name not in prefixes) if exact_modules else (not m.name.startswith(tuple(prefixes))):
+            continue
+        for fi in list(m.functions.values()) + [f for c in m.classes.values() for f in c.methods.values()]:
+            fnode = fi.node
+            if not isinstance(fnode, (_ast.FunctionDef, _ast.AsyncFunctionDef)):
+                continue
+            n += 1
+            fl = Flow(fi)
+            args = fnode.args
+            params = {a_.arg for a_ in args.posonlyargs + args.args + args.kwonlyargs} | ({args.vararg.arg} if args.vararg else set()) | \
+                ({args.kwarg.arg} if args.kwarg else set())
+            stored, declared = set(), set()
+
+            def collect(node):
+                for ch in _ast.iter_child_nodes(node):
+                    if isinstance(ch, (_ast.FunctionDef, _ast.AsyncFunctionDef, _ast.ClassDef)):
+                        stored.add(ch.name)
+                        continue
+                    if isinstance(ch, (_ast.Lambda, _ast.ListComp, _ast.SetComp, _ast.DictComp, _ast.GeneratorExp)):
+                        continue
+                    if isinstance(ch, (_ast.Global, _ast.Nonlocal)):
+                        declared.update(ch.names)
+                    if isinstance(ch, _ast.Name) and isinstance(ch.ctx, _ast.Store):
+                        stored.add(ch.id)
+                    if isinstance(ch, _ast.ExceptHandler) and ch.name:
+                        stored.add(ch.name)
+                    if isinstance(ch, (_ast.Import, _ast.ImportFrom)):
+                        for a_ in ch.names:
+                            stored.add((a_.asname or a_.name).split(".")[0])
+                    collect(ch)
+            collect(fnode)
+            fl.locals = stored - declared - params
+            fl.block(fnode.body, set(params))
+            for x in fl.bad[:3]:
+                ctx.ob(False, Finding(f"{prop}.{rule}", fi.where, f"{fi.short}|unbound-local:{x.id}",
+                                      f"line {x.lineno}: `{x.id}` is read in {fi.short} before any statement that could have assigned it: "
+                                      "the call raises UnboundLocalError for every input that reaches this line"))
+            if not fl.bad:
+                ctx.ob(True, nontrivial_key=("def-before-use", fi.qualname))
+    ctx.analysed[f"{rule} functions checked for use-before-assignment"] = n
+    return n
